@@ -21,8 +21,8 @@ Print Assumptions C01_script_table_refines_the_map.
 (* For every state of the table (so: after every history), when the stream-variant compile of
    n is performed and rejected: n maps to Failed; every other entry and every file is
    unchanged; asking again by stream / by name / by ExecuteThread(name) answers "not loaded" and
-   a run reports the failed script; and every later history about other names observes exactly
-   what it observes on the table WITHOUT the failed entry. *)
+   a run reports the failed script; and every later history that does not name n (Reset included)
+   observes exactly what it observes on the table WITHOUT the failed entry. *)
 Theorem C01_reject_leaves_master_usable :
   forall (m : mst) (n : N) (rc : bool) (k : N),
     snd (step m (OCompile n rc (Reject k))) = BRejected k ->
@@ -34,7 +34,7 @@ Theorem C01_reject_leaves_master_usable :
     /\ snd (step m' (ORequest n false)) = BNotLoaded
     /\ snd (step m' (OExec n)) = BNotLoaded
     /\ snd (step m' (ORun n)) = BFailed
-    /\ (forall ops, (forall o, In o ops -> op_name o <> n) ->
+    /\ (forall ops, (forall o, In o ops -> op_name o <> Some n) ->
           run_from m' ops = run_from (mkM (tremove (tbl m) n) (files m)) ops).
 Proof. exact reject_leaves_master_usable. Qed.
 Print Assumptions C01_reject_leaves_master_usable.
@@ -44,17 +44,18 @@ Print Assumptions C01_reject_leaves_master_usable.
 Theorem C01_rerequest_after_rejection_is_not_loaded :
   forall (pre post : list op) (n k : N) (rc : bool),
     nth_error (run (pre ++ [OCompile n rc (Reject k)])) (length pre) = Some (BRejected k) ->
-    (forall o, In o post -> op_name o <> n) ->
+    (forall o, In o post -> op_name o <> Some n) ->
     forall s, nth_error (run (pre ++ OCompile n rc (Reject k) :: OCompile n false s :: post)) (S (length pre)) = Some BNotLoaded.
 Proof. exact reject_after_any_history. Qed.
 Print Assumptions C01_rerequest_after_rejection_is_not_loaded.
 
-(* (ii) jump_tables_bounded.  For EVERY loop skeleton the emitter accepts: every write into
+(* (ii) jump_tables_bounded.  For EVERY loop skeleton and BOTH passes (k = true: the counting pass
+   of Preallocate, k = false: the emitting pass), when the pass ends without exception: every write into
    either jump table has an index below its limit; every patch goes through a non-null slot
    with an index below the limit; both counts are back at 0 at the end of the program. *)
 Theorem C01_jump_tables_bounded :
-  forall (p : stmts) (s : est),
-    emit_root p = Ok s ->
+  forall (k : bool) (p : stmts) (s : est),
+    emit_root k p = Ok s ->
     (forall w i loc, In (EvWrite w i loc) (log s) -> i < lim w)
     /\ (forall w i l o, In (EvPatch w i l o) (log s) -> i < lim w /\ l <> None)
     /\ bcnt s = 0 /\ ccnt s = 0.
@@ -102,13 +103,13 @@ Print Assumptions C01_generated_wiring_is_the_modelled_one.
 (* ---------------------------------------------------------------- non-vacuity *)
 
 (* a rejected compile, a refused re-request in both variants, an unharmed other script, a later
-   successful recompile *)
+   successful recompile, a Reset *)
 Example table_history :
   run [OCompile 0 false (Accept 7); OSetFile 1 (Reject 3); OCompile 1 false (Reject 0); OCompile 1 false (Accept 9);
        ORequest 1 false; OExec 1; ORun 0; OCompile 2 false (Accept 5); ORun 2; ORun 1; OCompile 1 true (Accept 9); ORun 1;
-       ORequest 1 true; ORun 1; ORequest 3 false]
+       ORequest 1 true; ORun 1; ORequest 3 false; OReset; ORun 0; ORequest 1 false; OCompile 0 false (Accept 4); ORun 0]
   = [BOk 7; BDone; BRejected 0; BNotLoaded; BNotLoaded; BNotLoaded; BRan 7; BOk 5; BRan 5; BFailed; BOk 9; BRan 9;
-     BRejected 3; BFailed; BNoFile].
+     BRejected 3; BFailed; BNoFile; BDone; BAbsent; BRejected 3; BOk 4; BRan 4].
 Proof. vm_compute. reflexivity. Qed.
 
 (* while { break continue switch { break } do { continue break } try { } catch { } } *)
